@@ -91,6 +91,32 @@ def run(ctx):
     shutil.rmtree(work, ignore_errors=True)
     ref = channels.pristine_digests()
     ctx.extra["pristine_reference_digests"] = ref
+    # interference between reads: for every ordered pair of (content, options): read A ; read B ; read A again
+    work = tlc.scratch("c10c")
+    keys = [(c, o) for c in sorted(channels.CONTENTS) for o in (sorted(channels.OPTS) if thorough else ["default", "preserve"])]
+    for (c1, o1) in keys:
+        for (c2, o2) in keys:
+            if (c1, o1) == (c2, o2):
+                continue
+            w = channels.World(work)
+            hist = [{"op": "read", "c": c1, "opt": o1, "ch": "StringIO", "enc": "utf-8", "nl": "LF"},
+                    {"op": "read", "c": c2, "opt": o2, "ch": rng.choice(["str", "string", "Path"]), "enc": "utf-8", "nl": "LF"},
+                    {"op": "read", "c": c1, "opt": o1, "ch": rng.choice(["str", "file", "StringIO"]), "enc": "utf-8", "nl": "CRLF"}]
+            traces.append([w.read(e) for e in hist])
+            meta.append({"history": hist})
+            ctx.evaluations += 3
+            ctx.case(["interference", c1, o1, c2, o2])
+    # a UTF-8 file with BOM read with an explicit encoding= as well
+    for c in ("full", "nowell", "nel"):
+        for explicit in ("utf-8", "utf-8-sig"):
+            for ch in ("str", "Path"):
+                w = channels.World(work)
+                e = {"op": "read", "c": c, "opt": "default", "ch": ch, "enc": "utf-8-sig", "nl": "LF", "explicit_bom": explicit}
+                traces.append([w.read(e)])
+                meta.append({"history": [e]})
+                ctx.evaluations += 1
+                ctx.case(["bom-explicit", c, explicit, ch])
+    shutil.rmtree(work, ignore_errors=True)
     fails, _ = ctx.validate("Trace_Channels", {"ref": ref, "traces": traces})
     for tid, l, clause in fails:
         ev = traces[tid][l]
